@@ -26,14 +26,16 @@ DocU   == { [kind |-> "doc", fEncrypted |-> e, fObfuscated |-> o] : e \in BOOLEA
 OdfEntry == [name : OdfNames, ed : BOOLEAN]
 OdfU   == { [kind |-> "odf", enc |-> e, prefix |-> p, entries |-> s] :
               e \in {"utf8", "utf16"}, p \in {"manifest", "m"}, s \in NonEmptySeqs(OdfEntry, MaxEntries) }
-\* plaintext-length layouts (see Encryption.tla): all 18, or the diagonal + two mixed ones per compression mode;
-\* AES-256 revision 6 (whose pure-Python key derivation costs seconds per open) gets two layouts in the "diag" sweep
+\* plaintext-length layouts (see Encryption.tla): all 18 ("full"), or the diagonal + two mixed ones per compression
+\* mode ("diag"); AES-256 revision 6 (whose pure-Python key derivation costs seconds per open) gets the diagonal set
+\* in the "full" sweep and two layouts in the "diag" sweep
 Residues == {0, 1, 15}
 Layouts  == [flate : BOOLEAN, slen : Residues, strlen : Residues]
 DiagLayouts == { y \in Layouts : y.slen = y.strlen \/ (y.slen = 0 /\ y.strlen = 1) \/ (y.slen = 1 /\ y.strlen = 0) }
 R6Layouts == { [flate |-> FALSE, slen |-> 0, strlen |-> 0], [flate |-> TRUE, slen |-> 0, strlen |-> 1] }
 DefaultLayout == [flate |-> FALSE, slen |-> 1, strlen |-> 1]
-SweepOf(a) == IF PdfSweep = "full" THEN Layouts ELSE IF a = "AES-256" THEN R6Layouts ELSE DiagLayouts
+SweepOf(a) == IF PdfSweep = "full" THEN (IF a = "AES-256" THEN DiagLayouts ELSE Layouts)
+              ELSE IF a = "AES-256" THEN R6Layouts ELSE DiagLayouts
 Pdf(a, u, o, y) == [kind |-> "pdf", alg |-> a, userEmpty |-> u, owner |-> o,
                     flate |-> y.flate, slen |-> y.slen, strlen |-> y.strlen]
 PdfU   == { Pdf(a, u, o, DefaultLayout) : a \in PdfAlgs \ {"none"}, u \in BOOLEAN, o \in PdfOwners }
